@@ -7,6 +7,10 @@ tier = os.environ.get('SEED_TIER', 'quick')
 assert subprocess.run(['git', '-C', '/repo', 'status', '--porcelain', '--untracked-files=no'], capture_output=True, text=True).stdout.strip() == '', '/repo not clean'
 r = subprocess.run(['git', '-C', '/repo', 'apply', patch], capture_output=True, text=True)
 if r.returncode:
+    # the tree moved on (fix: commits) since the seed was written: 3-way merge on the recorded blobs
+    r = subprocess.run(['git', '-C', '/repo', 'apply', '--3way', patch], capture_output=True, text=True)
+    subprocess.run(['git', '-C', '/repo', 'reset', '-q'])
+if r.returncode:
     print('patch does not apply:', r.stderr); sys.exit(3)
 try:
     for p in props:
@@ -16,3 +20,4 @@ try:
         for l in lines: print('   ', l[:400])
 finally:
     subprocess.run(['git', '-C', '/repo', 'checkout', '--', '.'])
+    subprocess.run(['git', '-C', '/repo', 'clean', '-fdq', '--', 'src', 'gsd-parser/src', 'tests', 'gsd-parser/tests'])
